@@ -397,6 +397,23 @@ pub fn family(name: &str, tier: Tier) -> Vec<Case> {
             s.horizon_ms = 400_000;
             out.push(Case { scn: s, menu: vec![Action::RebindClient, Action::Drop], k: 1, extra: vec![], expect: Expect::Complete, injects: vec![], differential: false, first_index: 10, adv: None });
         }
+        // ------------------------------------------------------------------ TPE2E: edited transport-parameter blocks
+        "tpe2e" => {
+            for (i, item) in tp_catalogue().iter().enumerate() {
+                for who in [crate::record::CLIENT, crate::record::SERVER] {
+                    if item.who != 2 && item.who != who {
+                        continue;
+                    }
+                    let mut s = Scenario::base(&format!("tpe2e/{}-{}", item.name, if who == 0 { "from-client" } else { "from-server" }));
+                    s.tp_edit = Some((who, item.edit.clone()));
+                    s.tasks = vec![echo_task(3000, 0)];
+                    s.horizon_ms = if item.accept { 30_000 } else { 12_000 };
+                    s.linger_ms = 100;
+                    let _ = i;
+                    out.push(Case { scn: s, menu: vec![], k: 0, extra: vec![], expect: if item.accept && !item.limits_only { Expect::Complete } else { Expect::Nothing }, injects: vec![], differential: false, first_index: 0, adv: None });
+                }
+            }
+        }
         // ------------------------------------------------------------------ ADV: an otherwise honest peer that breaks one rule
         "adv" => {
             let cat = adv_catalogue();
@@ -482,6 +499,57 @@ pub fn family(name: &str, tier: Tier) -> Vec<Case> {
     out
 }
 
+pub struct TpItem {
+    pub name: &'static str,
+    /// who sends the edited block: 0 client, 1 server, 2 both (one scenario each)
+    pub who: u8,
+    pub edit: TpEdit,
+    /// RFC 9000 7.4 / 18.2 verdict
+    pub accept: bool,
+    /// accepted, but the declared limits make the transfer stall (only the sender-side limit monitor is of interest)
+    pub limits_only: bool,
+}
+
+fn vint(v: u64) -> Vec<u8> {
+    let mut o = Vec::new();
+    vi(&mut o, v);
+    o
+}
+
+pub fn tp_catalogue() -> Vec<TpItem> {
+    let rej = |name: &'static str, who: u8, edit: TpEdit| TpItem { name, who, edit, accept: false, limits_only: false };
+    let acc = |name: &'static str, who: u8, edit: TpEdit| TpItem { name, who, edit, accept: true, limits_only: false };
+    vec![
+        rej("ack-delay-exponent-21", 2, TpEdit::Replace(0x0a, vec![21])),
+        acc("ack-delay-exponent-20", 2, TpEdit::Replace(0x0a, vec![20])),
+        rej("max-ack-delay-2^14", 2, TpEdit::Replace(0x0b, vint(1 << 14))),
+        acc("max-ack-delay-2^14-1", 2, TpEdit::Replace(0x0b, vint((1 << 14) - 1))),
+        rej("max-udp-payload-1199", 2, TpEdit::Replace(0x03, vint(1199))),
+        acc("max-udp-payload-1200", 2, TpEdit::Replace(0x03, vint(1200))),
+        rej("active-cid-limit-1", 2, TpEdit::Replace(0x0e, vec![1])),
+        acc("active-cid-limit-2", 2, TpEdit::Replace(0x0e, vec![2])),
+        rej("max-streams-bidi-2^60+1", 2, TpEdit::Replace(0x08, vint((1 << 60) + 1))),
+        rej("max-streams-uni-2^60+1", 2, TpEdit::Replace(0x09, vint((1 << 60) + 1))),
+        rej("duplicate-initial-max-data", 2, TpEdit::Append(vec![0x04, 0x01, 0x05, 0x04, 0x01, 0x05])),
+        rej("duplicate-max-idle-timeout", 2, TpEdit::Append(vec![0x01, 0x01, 0x05, 0x01, 0x01, 0x06])),
+        rej("client-sends-stateless-reset-token", 0, TpEdit::Replace(0x02, vec![7; 16])),
+        rej("client-sends-original-destination-connection-id", 0, TpEdit::Replace(0x00, vec![7; 8])),
+        rej("client-sends-retry-source-connection-id", 0, TpEdit::Replace(0x10, vec![7; 8])),
+        rej("client-sends-preferred-address", 0, TpEdit::Replace(0x0d, { let mut v = vec![1, 2, 3, 4, 0x11, 0x51]; v.extend_from_slice(&[0x20, 1, 0xd, 0xb8, 0, 0, 0, 0, 0, 0, 0, 0, 0, 0, 0, 1, 0x01, 0xbb]); v.push(4); v.extend_from_slice(&[9; 4]); v.extend_from_slice(&[8; 16]); v })),
+        rej("initial-source-connection-id-mismatch", 2, TpEdit::Replace(0x0f, vec![0xab; 16])),
+        rej("initial-source-connection-id-missing", 2, TpEdit::Remove(0x0f)),
+        rej("original-destination-connection-id-mismatch", 1, TpEdit::Replace(0x00, vec![0xab; 8])),
+        rej("original-destination-connection-id-missing", 1, TpEdit::Remove(0x00)),
+        rej("retry-source-connection-id-without-retry", 1, TpEdit::Replace(0x10, vec![0xab; 8])),
+        acc("unknown-grease-parameter-len0", 2, TpEdit::Append(vec![0x1b, 0x00])),
+        acc("unknown-grease-parameter-len8", 2, TpEdit::Append(vec![0x40, 0x3a, 0x08, 1, 2, 3, 4, 5, 6, 7, 8])),
+        acc("unknown-large-id", 2, TpEdit::Append(vec![0xc0, 0, 0, 0, 0xff, 0, 0, 0x1b, 0x01, 0x09])),
+        TpItem { name: "declares-stream-data-10", who: 2, edit: TpEdit::Replace(0x06, vec![10]), accept: true, limits_only: true },
+        TpItem { name: "declares-max-data-100", who: 2, edit: TpEdit::Replace(0x04, vint(100)), accept: true, limits_only: true },
+        TpItem { name: "declares-max-streams-bidi-0", who: 1, edit: TpEdit::Replace(0x08, vec![0]), accept: true, limits_only: true },
+    ]
+}
+
 pub fn stray_port(kind: u8, size: usize) -> u16 {
     10_000 + (kind as u16) * 2000 + size as u16
 }
@@ -549,6 +617,7 @@ pub fn property(p: &str) -> Option<PropertySpec> {
         "C10" => spec(vec!["sendgate"]),
         "C11" => Some(PropertySpec { families: vec!["data", "live", "flow", "lifecycle", "hs", "stray"], monitors: vec!["amp", "stray"] }),
         "C13" => Some(PropertySpec { families: vec!["migrate"], monitors: vec!["cid", "data", "live"] }),
+        "C14" => Some(PropertySpec { families: vec!["tpe2e"], monitors: vec!["tpe2e", "fc", "data", "live"] }),
         "C06" => Some(PropertySpec { families: vec!["forge"], monitors: vec!["auth", "ack", "data", "live"] }),
         "C12" => spec(vec!["txcons"]),
         "C15" => Some(PropertySpec { families: vec!["keyup"], monitors: vec!["keyup", "data", "live"] }),
@@ -588,6 +657,7 @@ pub fn run_monitors(names: &[String], case: &Case, r: &Record, only_finite_fault
             "keyup" => monitors::mon_keyup(&case.scn, r, &mut out),
             "stray" => monitors::mon_stray(&case.scn, r, &mut out),
             "cid" => monitors::mon_cid(&case.scn, r, &mut out),
+            "tpe2e" => monitors::mon_tpe2e(&case.scn, r, &mut out),
             "adv" => {
                 if let Some(adv) = &case.adv {
                     monitors::mon_adv(&case.scn, r, adv, &mut out)
